@@ -234,6 +234,25 @@ def py_oracle(recs, d, tab_sizes=None):
                 sz = size(k)
                 if a is None or b is None or sz is None or not (a <= b < sz):
                     ok = False
+        if ok:
+            def spans(side):
+                out = []
+                for nd in l[side]:
+                    (k, v), = nd.items()
+                    out.append((k,) + ((py_nat(v[0]), py_nat(v[1])) if isinstance(v, list) else (py_nat(v), py_nat(v))))
+                return out
+            sr, ds, lt = spans('src_nodes'), spans('dest_nodes'), l['link_type']
+            one = lambda x: x[1] == x[2]
+            if lt == 'CopyLink':
+                ok = len(sr) == 1 and len(ds) == 1 and sr[0][2] - sr[0][1] == ds[0][2] - ds[0][1]
+            elif lt == 'One2ManyLink':
+                ok = len(sr) == 1 and len(ds) == 1 and one(sr[0])
+            elif lt == 'Many2OneLink':
+                ok = len(sr) == 1 and len(ds) == 1 and one(ds[0])
+            elif lt == 'Range2Slk<...>':
+                ok = len(sr) == 1 and len(ds) == 2 and one(sr[0]) and one(ds[0]) and one(ds[1]) and ds[1][0] == 'dest_vars()'
+            else:
+                ok = len(sr) >= 1 and len(ds) >= 1
         if not ok:
             bad.append('bad-link')
     for i, v in enumerate(d['vars']):
